@@ -85,7 +85,8 @@ def parseCase (c : String) : Option Case :=
   | [v] :: ins => do
     let ins ← ins.mapM (fun ts => match ts with | [t] => parseElems t | _ => none)
     match v.splitOn ":" with
-    | [name] => pure ⟨name, [], ins⟩
+    -- "<variant>D": the same join under a difference comparator (harness/run/c09.go); the model's order is the one it induces
+    | [name] => pure ⟨if (name.startsWith "j2" || name.startsWith "jn") && name.endsWith "D" then (name.dropEnd 1).toString else name, [], ins⟩
     | [name, w] => do
       let ws ← parseNatList w
       if ws.length == ins.length then pure ⟨name, ws, ins⟩ else none
